@@ -67,7 +67,15 @@ def run(res, args):
         fcases.append("filter %s 0 0 %d 4096 %s" % (gen.hx(s), lat, opt))
         dcases.append("display %s %d 4096 %s" % (gen.hx(s), lat, opt))
         meta.append((s, lat))
-    ins = ins + slow + quiet
+    # several writer goroutines of different speed (logs enabled, the output writer much slower than the log
+    # writers): the function must wait for all of them, not for the first to finish
+    several = [b"".join(gen.rand_frame(rng, small=True) for _ in range(rng.randint(1, 3))) for _ in range(3 if res.tier == "quick" else 12)]
+    for k, s in enumerate(several):
+        fcases.append("filter %s %d %d %d 4096" % (gen.hx(s), [1, 0, 1][k % 3], [1, 1, 0][k % 3], 400000))
+        dcases.append("display %s %d 4096" % (gen.hx(s), 1000))
+        meta.append((s, 400000))
+        res.count("rtcmfilter with log writers and a slow output writer")
+    ins = ins + slow + quiet + several
     # expected output from sequential framing (model), cross-checked with the implementation's stream handler
     scases = ["stream %d debug %s" % (framing.T0, gen.hx(s)) for s in ins]
     simpl, smodel = framing.run_both(res, "stream", scases)
